@@ -30,3 +30,16 @@ Proof. split; reflexivity. Qed.
 
 Lemma udp_bind_follows_target : udp_server_bind_follows_target = true.
 Proof. reflexivity. Qed.
+
+(* ---- C06: the shape of the authentication gate (premises of Model/Auth.v) ---- *)
+Lemma auth_hash_len_32 : auth_hash_len = 32.
+Proof. reflexivity. Qed.
+
+(* authenticate_client compares the whole received array with the whole expected array by `!=` *)
+Lemma auth_whole_array_comparison : auth_compares_whole_arrays = true.
+Proof. reflexivity. Qed.
+
+(* handle_connection: `authenticate_client(..).await?;` is a statement of its own before the session is built:
+   no wrapper (timeout/select) and no branch in which the function goes on without an Ok *)
+Lemma auth_gate_direct : auth_result_propagated_directly = true.
+Proof. reflexivity. Qed.
